@@ -501,7 +501,9 @@ def _decoder_table(ctx, R5, hugr, inv, co) -> None:
     if not helpers:
         return      # reported by the shared-helper instance below
     oo = f"self.{helpers[0]}({node}, {direction})"
-    has_order, given, below = f"{oo} is not None", f"{off} is not None", f"{off} < {oo}"
+    given, below = f"{off} is not None", f"{off} < {oo}"
+    from ..rulekit import answered, raised_privately
+    excs = raised_privately(hugr.methods[helpers[0]])
     bad = None
     n = 0
     for q in ctx.paths(f"{BASE}.Hugr.{inv.name}"):
@@ -510,12 +512,13 @@ def _decoder_table(ctx, R5, hugr, inv, co) -> None:
         n += 1
         v = q.value_text()
         t = lambda tm, k: q.has_test(tm, k) is not None      # noqa: E731
+        has = answered(q, oo, excs)          # the helper says None / raises its private exception for a node without order port
         if v == "-1":
-            ok = t(has_order, True) and (t(given, False) or t(below, False))
+            ok = has is True and (t(given, False) or t(below, False))
         elif v == "0":
-            ok = t(given, False) and t(has_order, False)
+            ok = t(given, False) and has is False
         elif v == off:
-            ok = t(given, True) and (t(has_order, False) or t(below, True))
+            ok = t(given, True) and (has is False or t(below, True))
         else:
             ok = False
         if not ok:
